@@ -69,6 +69,20 @@ pub enum Sched {
     Rand(u64, usize),
 }
 
+/// RFC 4648 §4 base64 with padding
+fn base64_std(b: &[u8]) -> String {
+    const A: &[u8; 64] = b"ABCDEFGHIJKLMNOPQRSTUVWXYZabcdefghijklmnopqrstuvwxyz0123456789+/";
+    let mut out = String::new();
+    for c in b.chunks(3) {
+        let v = (c[0] as u32) << 16 | (*c.get(1).unwrap_or(&0) as u32) << 8 | *c.get(2).unwrap_or(&0) as u32;
+        out.push(A[(v >> 18) as usize & 63] as char);
+        out.push(A[(v >> 12) as usize & 63] as char);
+        out.push(if c.len() > 1 { A[(v >> 6) as usize & 63] as char } else { '=' });
+        out.push(if c.len() > 2 { A[v as usize & 63] as char } else { '=' });
+    }
+    out
+}
+
 fn parse_sched(s: &str) -> Option<Sched> {
     let (k, rest) = s.split_at(1);
     match k {
@@ -99,12 +113,31 @@ pub struct Chunked {
     fail_kind: u8,
     fired: u32,
     ok_reads: usize,
+    /// true while the object is being CREATED (`ObjectDesc::create_from_stream` with compute_md5 reads the whole stream
+    /// once for Content-MD5): those reads are chunked by the same schedule (short reads) but inject no fault, and the
+    /// schedule starts again from its first entry afterwards - the transfers see exactly the schedule of the op, as the
+    /// model does
+    setup: std::sync::Arc<std::sync::atomic::AtomicBool>,
+    in_setup: bool,
 }
 
 impl Chunked {
     fn new(data: Vec<u8>, sched: Sched) -> Chunked {
         let rnd = if let Sched::Rand(s, _) = sched { s } else { 0 };
-        Chunked { data, pos: 0, sched, calls: 0, rnd, fail_after: None, fail_kind: b'p', fired: 0, ok_reads: 0 }
+        Chunked { data, pos: 0, sched, calls: 0, rnd, fail_after: None, fail_kind: b'p', fired: 0, ok_reads: 0, setup: Default::default(), in_setup: false }
+    }
+    fn phase(&mut self) -> bool {
+        let setup = self.setup.load(std::sync::atomic::Ordering::SeqCst);
+        if setup {
+            self.in_setup = true;
+        } else if self.in_setup {
+            self.in_setup = false;
+            self.calls = 0;
+            self.rnd = if let Sched::Rand(s, _) = self.sched { s } else { 0 };
+            self.ok_reads = 0;
+            self.fired = 0;
+        }
+        setup
     }
     fn next_limit(&mut self) -> usize {
         let i = self.calls;
@@ -129,7 +162,8 @@ impl Chunked {
 
 impl Read for Chunked {
     fn read(&mut self, buf: &mut [u8]) -> std::io::Result<usize> {
-        if let Some(k) = self.fail_after {
+        let setup = self.phase();
+        if let (Some(k), false) = (self.fail_after, setup) {
             if self.ok_reads >= k {
                 use std::io::ErrorKind::*;
                 let (kind, times) = match self.fail_kind {
@@ -341,7 +375,7 @@ impl BencEngine {
         }
     }
 
-    fn op_new(&mut self, t: &[&str]) -> String {
+    fn op_new(&mut self, t: &[&str], o: &mut Oracle) -> String {
         self.drop_sess();
         RAW.lock().unwrap().clear();
         if t.len() != 12 {
@@ -418,6 +452,7 @@ impl BencEngine {
         let mut fkind = b'p';
         let obj2 = obj.clone();
         let md5 = prepos.is_none();
+        let setup = std::sync::Arc::new(std::sync::atomic::AtomicBool::new(true));
         let mk_file = |this: &mut BencEngine| -> std::path::PathBuf {
             std::fs::create_dir_all(&this.workdir).ok();
             this.nfile += 1;
@@ -473,6 +508,7 @@ impl BencEngine {
                         match parse_sched(spec) {
                             Some(x) => {
                                 let mut c = Chunked::new(obj2, x);
+                                c.setup = setup.clone();
                                 c.fail_after = fail;
                                 c.fail_kind = fkind;
                                 // Interrupted is retried by the sender: not a fault as far as the packets are concerned
@@ -489,12 +525,12 @@ impl BencEngine {
                 if let Some(n) = prepos {
                     stream.seek(SeekFrom::Start(n)).ok();
                 }
-                // no MD5 for the chunked reader (it would consume schedule entries the model does not see) nor for a
-                // pre-positioned stream (it would rewind it)
-                let md5 = md5 && !src.starts_with("chk:");
+                // no MD5 for a pre-positioned stream (it would rewind it); the chunked reader serves the MD5 pass with
+                // short reads too (`Chunked::setup`) and restarts its schedule for the transfers
                 guarded(AssertUnwindSafe(move || ObjectDesc::create_from_stream(stream, "application/octet-stream", &url, md5, tc)))
             }
         };
+        setup.store(false, std::sync::atomic::Ordering::SeqCst);
         let desc = match desc {
             Ok(Ok(d)) => {
                 if let Some(n) = postpos {
@@ -517,6 +553,11 @@ impl BencEngine {
             Ok(Ok(d)) => d,
         };
         let l = desc.transfer_length;
+        // C20 (the FDT's packets are packets of the session too): the Content-MD5 the object is announced with is the
+        // MD5 of the object's bytes (RFC 2616 §14.15: before content encoding), whatever the source kind and however its
+        // reads are cut - computed here by the md5 crate over the op's bytes, not by flute's read loop
+        let md5_want = base64_std(&md5::compute(&obj).0);
+        let md5_desc = desc.md5.clone();
         // the transfer-encoded bytes: what flute's own public compressor yields (cenc null: the object itself)
         let te = if t[11] == "=" {
             obj.clone()
@@ -547,6 +588,17 @@ impl BencEngine {
         let now = SystemTime::UNIX_EPOCH + Duration::from_secs(1_700_000_000);
         if sender.publish(now).is_err() {
             return "ERR publish".into();
+        }
+        if md5 {
+            // what the FDT instance announces (the XML `Sender::fdt_xml_data` yields is the FDT object's content)
+            let xml = sender.fdt_xml_data(now).map(|v| String::from_utf8_lossy(&v).to_string()).unwrap_or_default();
+            let announced = xml.split_once("Content-MD5=\"").and_then(|(_, r)| r.split_once('"')).map(|(v, _)| v.to_string());
+            if announced.as_deref() != Some(md5_want.as_str()) || md5_desc.as_deref() != Some(md5_want.as_str()) {
+                o.fail("C20:md5-differs-by-source", &format!(
+                    "Content-MD5 announced in the FDT {:?} / ObjectDesc.md5 {:?} != MD5 of the {} object bytes {} (what the buffer source announces) for source `{}`",
+                    announced, md5_desc, obj.len(), md5_want, src
+                ));
+            }
         }
         self.s = Some(Sess {
             sender,
@@ -645,7 +697,7 @@ impl Engine for BencEngine {
             return "bad-op".into();
         }
         match t[1] {
-            "new" | "newlegacy" => self.op_new(&t[2..]),
+            "new" | "newlegacy" => self.op_new(&t[2..], o),
             "read" | "readall" => {
                 if t.len() != 2 {
                     return "bad-op".into();
